@@ -58,7 +58,8 @@ def value_strategy(kind: str, choices):
         return st.booleans().map(lambda b: ["bool", b])
     if kind == "int_or_none_from_string":
         return st.one_of(st.just(["none"]), st.integers(-10**6, 10**9).map(lambda i: ["int", i]),
-                         st.sampled_from([0, 1, -1, 2**31, 2**63]).map(lambda i: ["int", i]))
+                         # (numeric options accept values up to 10^12 in magnitude; beyond that they are rejected, which is C16's business)
+                         st.sampled_from([0, 1, -1, 2**31, 10**12, -10**12]).map(lambda i: ["int", i]))
     if kind == "int_or_default":
         return st.integers(-10**6, 10**9).map(lambda i: ["int", i])
     if kind == "float_or_none_from_string":
